@@ -176,9 +176,19 @@ def build(route, recipe):
         cell.set_vectors(V)
         return cell, "UnitCell.from_lengths_and_angles(other).volume(); .set_vectors(%r)" % (V.tolist(),)
     if route == "respec_params":
-        cell = UnitCell(np.array([[3.1 * a, 0.0, 0.0], [0.4, 1.7 * b, 0.0], [0.3, -0.5, 0.6 * c]]))
+        # the cell re-specified was built on an array the caller still holds (another cell uses it): integer-typed for every
+        # second recipe (UnitCell(np.array([[7, 0, 0], ...])))
+        if (recipe["sn"] + recipe["sd"]) % 2:
+            held = np.array([[7, 0, 0], [1, 9, 0], [1, -2, 5]])
+        else:
+            held = np.array([[3.1 * a, 0.0, 0.0], [0.4, 1.7 * b, 0.0], [0.3, -0.5, 0.6 * c]])
+        held0 = held.copy()
+        first = UnitCell(held)
+        cell = UnitCell(first.direct)
         cell.volume(), cell.a_star, cell.b_star, cell.c_star, cell.parameters
         cell.set_lengths_and_angles(lengths, angles)
+        if not (np.array_equal(held, held0) and np.array_equal(np.asarray(first.direct), held0)):
+            raise ArgumentMutated(route)
         return cell, "UnitCell(other vectors).volume(); .set_lengths_and_angles(%r, %r)" % (lengths, angles)
     if route == "rhombohedral_rad":
         return UnitCell.rhombohedral(a, al), "UnitCell.rhombohedral(%r, %r)" % (a, al)
@@ -413,6 +423,17 @@ def family_gram(rng, fam):
 def family_lattice(rng, fam):
     """Integer lattices of the named families (so that the vectors route applies too)."""
     m, n, k = rng.sample(range(1, 7), 3)
+    if fam in ("cubic", "tetragonal", "orthorhombic") and rng.random() < 0.5:
+        # the same metric with lattice vectors that do not lie along x, y, z: a 3-4-5 rotation about one axis, axes permuted
+        # cyclically (right-handed), or both
+        lens = {"cubic": (5, 5, 5), "tetragonal": (5, 5, rng.choice([1, 2, 3, 4, 6])), "orthorhombic": (5, 10, rng.choice([2, 3, 4, 7]))}[fam]
+        L = [[3 * lens[0] // 5, 4 * lens[0] // 5, 0], [-4 * lens[1] // 5, 3 * lens[1] // 5, 0], [0, 0, lens[2]]]
+        if rng.random() < 0.5:
+            L = [[lens[0], 0, 0], [0, lens[1], 0], [0, 0, lens[2]]]
+        sh = rng.randrange(3)
+        L = [row[sh:] + row[:sh] for row in L]           # cyclic permutation of the Cartesian axes (a proper rotation)
+        if det3(L) > 0:
+            return L
     if fam == "cubic":
         return [[m, 0, 0], [0, m, 0], [0, 0, m]]
     if fam == "tetragonal":
